@@ -89,6 +89,12 @@ def c11 : List String := Id.run do
         | some f =>
           if !(f.callee == "$op" && f.callArgs == first :: f.params.map (·.1)) then
             out := out ++ [s!"export macro {repr m} (arm with target features: {wf}), {nv} function: every routine generated by this arm calls {f.callee}({f.callArgs}) although its parameters are {f.params.map (·.1)} — operands reach the kernel in another order than the caller passed them (any non-commutative operation, or unequal lengths, shows it)"]
+  -- aliases that shadow a table row first (they change what an existing name means), then the merely additional names
+  for pass in [true, false] do
+    for a in exportAliases do
+      let shadowed := exports.filter (fun r => r.xanyName == a.2.2.2)
+      if shadowed.isEmpty != pass then
+        out := out ++ [s!"{a.1}:{a.2.1}: routine `{a.2.2.1}` is also exported as `{a.2.2.2}`" ++ (if shadowed.isEmpty then " — a name outside the export tables, bound to a routine whose own name says something else" else s!" — this explicit re-export shadows the glob-exported routine of that name (table row {(shadowed.map (fun r => (r.file, r.line)))}): callers of `{a.2.2.2}` now run `{a.2.2.1}`")]
   for r in exports do
     if !(exportRowOk r && exportRowCfgOk r) then
       out := out ++ [s!"export whose name and binding disagree: {repr r}"]
